@@ -5,6 +5,7 @@ package main
 // (back end "constfold"). DESIGN.md 2.5 kind `ground`.
 
 import (
+	tparse "text/template/parse"
 	"encoding/json"
 	"fmt"
 	"go/ast"
@@ -79,6 +80,7 @@ func (e *Engine) GroundObligations(prop, tier string) ([]*Obligation, []string) 
 		// the assumption main makes at the call of getBinaryArch (distinct numbers have distinct names in the table of
 		// the architecture returned), discharged on the literals of the three tables it can return
 		g.tablesInjective([][2]string{{"I386", "syscalls386"}, {"ARM", "syscallsARM"}, {"X86_64", "syscallsX86_64"}})
+		g.codeTemplate()
 	case "C16":
 		// the determinism half of C16's monotonicity argument: the parser tables and expressions are read-only
 		g.globalsImmutable([][2]string{{"disasm", "x86_64Parser"}, {"disasm", "i386Parser"}, {"disasm", "x86_64SyscallRegex"}, {"disasm", "x86_64RawSyscallRegex"},
@@ -1022,4 +1024,93 @@ func constExprValues(en *Engine) map[string]string {
 		}
 	}
 	return out
+}
+
+// ---- C18: the template of the generated Go file ----
+
+// codeTemplate: the constant defaultTemplate (cmd/seccomp-profiler) lists every element of .SyscallNames exactly once,
+// in order, as a quoted string inside `Names: []string{ ... }` of an allow group under default action errno - what
+// writeGoTemplate's contract (the list handed to Execute is main's list) needs to become a statement about the file.
+func (g *groundCtx) codeTemplate() {
+	fn := "main:seccomp-profiler.defaultTemplate"
+	p := g.e.PkgByName["main:seccomp-profiler"]
+	if p == nil {
+		g.add(fn, fn+"#ground.template", "package cmd/seccomp-profiler loaded", false, "missing", token.NoPos)
+		return
+	}
+	c, ok := p.Types.Scope().Lookup("defaultTemplate").(*types.Const)
+	if !ok || c.Val().Kind() != constant.String {
+		g.add(fn, fn+"#ground.template", "defaultTemplate is a string constant", false, "not found", token.NoPos)
+		return
+	}
+	text := constant.StringVal(c.Val())
+	trees, err := tparse.Parse("profile", text, "{{", "}}", tmplBuiltins())
+	if err != nil || trees["profile"] == nil {
+		g.add(fn, fn+"#ground.template", "defaultTemplate parses", false, fmt.Sprint(err), c.Pos())
+		return
+	}
+	var ranges []*tparse.RangeNode
+	var walk func(n tparse.Node)
+	walk = func(n tparse.Node) {
+		switch x := n.(type) {
+		case *tparse.ListNode:
+			if x != nil {
+				for _, m := range x.Nodes {
+					walk(m)
+				}
+			}
+		case *tparse.RangeNode:
+			ranges = append(ranges, x)
+			walk(x.List)
+			walk(x.ElseList)
+		case *tparse.IfNode:
+			walk(x.List)
+			walk(x.ElseList)
+		case *tparse.WithNode:
+			walk(x.List)
+			walk(x.ElseList)
+		}
+	}
+	root := trees["profile"].Root
+	walk(root)
+	okRange, detail := false, ""
+	if len(ranges) != 1 {
+		detail = fmt.Sprintf("%d range actions", len(ranges))
+	} else {
+		r := ranges[0]
+		pipe := strings.ReplaceAll(r.Pipe.String(), " ", "")
+		body := ""
+		if r.List != nil {
+			body = r.List.String()
+		}
+		// `$v := .SyscallNames` (one variable: the element) and a body that is exactly one quoted use of it plus a comma
+		oneVar := len(r.Pipe.Decl) == 1 && strings.HasSuffix(pipe, ":=.SyscallNames")
+		v := ""
+		if oneVar {
+			v = r.Pipe.Decl[0].Ident[0]
+		}
+		norm := strings.Join(strings.Fields(body), "")
+		want := "\"{{" + v + "}}\","
+		okRange = oneVar && norm == want && r.ElseList == nil
+		detail = fmt.Sprintf("range %s body %q", r.Pipe.String(), norm)
+	}
+	g.add(fn, fn+"#ground.template.range", "defaultTemplate has exactly one range action, over .SyscallNames, whose body is the quoted element and a comma (every name once, in order)", okRange, detail, c.Pos())
+	// the range sits directly inside the Names list of the allow group of an errno-by-default policy
+	flat := strings.Join(strings.Fields(text), " ")
+	i := strings.Index(flat, "{{- range")
+	ctx := ""
+	if i >= 0 {
+		ctx = flat[:i]
+	}
+	okCtx := i >= 0 && strings.HasSuffix(strings.TrimSpace(ctx), "Names: []string{") && strings.Contains(ctx, "DefaultAction: seccomp.ActionErrno,") &&
+		strings.Count(ctx, "Action: seccomp.ActionAllow,") == 1 && strings.Count(flat, "Names:") == 1 && strings.Count(flat, "Action:") == 2 && !strings.Contains(flat, "NamesWithCondtions")
+	g.add(fn, fn+"#ground.template.context", "the range is the content of `Names: []string{` of the only group (action allow) of a policy with default action errno", okCtx, "context: "+ctx[max(0, len(ctx)-160):], c.Pos())
+}
+
+func tmplBuiltins() map[string]interface{} {
+	m := map[string]interface{}{}
+	for _, n := range []string{"and", "call", "html", "index", "slice", "js", "len", "not", "or", "print", "printf", "println", "urlquery", "eq", "ge", "gt", "le", "lt", "ne"} {
+		m[n] = fmt.Sprint
+	}
+	return m
 }
